@@ -303,8 +303,26 @@ def e2e_case(args):
         L.close()
 
 
+HIST_PROFILE = {"ops": {"create": 6, "register": 8, "createKeyPair": 2, "deriveKey": 2, "get": 6, "getAttributes": 6,
+                        "getAttributeList": 2, "modifyAttribute": 5, "setAttribute": 3, "deleteAttribute": 4,
+                        "activate": 1, "revoke": 1, "destroy": 1, "locate": 1},
+                "groups": 0.5, "restart": 0.08, "attr_focus": True}
+HIST_RULE = ("; histories: adaptive request sequences (creation with names / groups / application-specific "
+             "information, reads, attribute operations on other objects, engine restarts) with a full store dump "
+             "after every request, compared with the Lean engine model and checked by the stored-object monitor")
+
+
+def hist_nontrivial(j, o):
+    return "results" in o and any(r.get("status") == "ok" for r in o["results"])
+
+
 def run(ctx):
     import multiprocessing
+    import engine_check
+    import monitors_engine as M
+    st = engine_check.standard_run(ctx, HIST_PROFILE, [M.mon_c05], hist_nontrivial, HIST_RULE,
+                                   n_quick=120, n_thorough=2500, length=30)
+    hist_cov = dict(ctx.coverage)
     nwrap = 3000 if ctx.tier == "quick" else 60000
     ncases, nnormal = run_wrapping(ctx, nwrap)
     reps = 2 if ctx.tier == "quick" else 60
@@ -326,7 +344,10 @@ def run(ctx):
         for sig, what in rr["fails"]:
             ctx.report(sig, what, {"kind": "e2e", "args": list(a)})
     ctx.coverage.update({
-        "evaluations": len(res) + ncases, "distinct_nontrivial": len(distinct) + nnormal, "rule": RULE,
+        "evaluations": len(res) + ncases + hist_cov.get("evaluations", 0),
+        "distinct_nontrivial": len(distinct) + nnormal + hist_cov.get("distinct_nontrivial", 0),
+        "rule": RULE + HIST_RULE, "history_part": {k: hist_cov.get(k) for k in (
+            "evaluations", "distinct_nontrivial", "histories", "correspondence_divergences", "ops", "outcomes")},
         "samples": [{"e2e_case": list(args[0]), "result": {k: v for k, v in res[0].items() if k != "fails"}}],
         "e2e_cases": len(res), "e2e_outcomes": outcomes, "wrapping_dictionaries": ncases,
         "wrapping_dictionaries_in_theorem_domain": nnormal, "versions": VERS, "object_kinds": nlabels,
@@ -339,6 +360,10 @@ def search(ctx, broken):
 
 def replay(ctx, rep):
     r = rep.get("replay", rep)
+    if r.get("kind") in ("engine-history", "correspondence"):
+        import engine_check
+        import monitors_engine as M
+        return engine_check.standard_replay(ctx, rep, [M.mon_c05])
     if r.get("kind") == "e2e":
         out = e2e_case(tuple(r["args"]))
         for sig, what in out["fails"]:
